@@ -34,7 +34,7 @@ LEVEL_TEXT = (
 LEVEL_NOTE = "Trusted: simkit.readout (public APIs + read-only queue peek + sqlite_master row counts). Injectivity and SQL-safety of the naming scheme over all strings is sampled, not proved."
 MINIMIZE = None
 RULE = (
-    "one run = 2-3 adversarial ids x 15-50 operations (submit, run, event, store, purge-broker/orchestrator/state/trigger/client-data/app); "
+    "one run = 2-3 adversarial ids (incl. ids equal to another id's bare or component storage prefix) x 15-50 operations (submit, run, event, store, purge-broker/orchestrator/state/trigger/client-data/app); "
     "non-trivial = at least one purge was executed while another app held data; distinct = hash of ids + op sequence."
 )
 ASSUMPTIONS = ["'unchanged' is judged on the read-out of simkit.readout.snapshot plus per-table row counts; monitor-side caches are not part of it"]
